@@ -362,7 +362,10 @@ func run(c *eng.Ctx) error {
 		if p == nil {
 			return
 		}
-		c.W.Reset(t, map[string]any{"fails": p.fails, "passes": p.passes, "fam": p.fam, "scn": p.scn, "rejoin": p.rejoin})
+		// stale_*: outcome of probe() (1 = a re-appearing host was observed not to start healthy on that path), logged so
+		// that known findings F23a/F23b are matched only where their root cause was observed
+		c.W.Reset(t, map[string]any{"fails": p.fails, "passes": p.passes, "fam": p.fam, "scn": p.scn, "rejoin": p.rejoin,
+			"stale_sync": b2i(!syncOK), "stale_single": b2i(!singleOK)})
 		ck := &scripted{}
 		f := healthcheck.NewFilter(healthcheck.FilterConfig{Fails: p.fails, Passes: p.passes, Timeout: p.timeout}, ck)
 		// input class of a Run: does its list contain a host that left and re-appeared in this history
@@ -399,6 +402,13 @@ func run(c *eng.Ctx) error {
 		err = runMonitor(c, p, f, ck, class)
 	})
 	return err
+}
+
+func b2i(b bool) int {
+	if b {
+		return 1
+	}
+	return 0
 }
 
 func okStr(b bool) string {
